@@ -129,12 +129,57 @@ def monitor(c):
     return out[:2]
 
 
+
+def defaultdict_inputs(out):
+    """mappings that create an entry when a missing key is INDEXED (collections.defaultdict is a dict): reading a key that may be
+    absent must test for it first.  Every mapping-reading converter is given such inputs with the keys it looks for absent."""
+    import collections
+    import typing as t
+    import pane
+    from pane.annotations import Tagged
+    n = 0
+
+    class A(pane.PaneBase):
+        kind: t.Literal['a'] = 'a'
+        x: int = 0
+
+    class B(pane.PaneBase):
+        kind: t.Literal['b'] = 'b'
+
+    class P(pane.PaneBase, allow_extra=True):
+        x: int = 0
+        name: str = 'n'
+    types = [('internally tagged', t.Annotated[t.Union[A, B], Tagged('kind')]), ('externally tagged', t.Annotated[t.Union[A, B], Tagged('kind', external=True)]),
+             ('adjacently tagged', t.Annotated[t.Union[A, B], Tagged('kind', external=('t', 'c'))]), ('dataclass', P), ('struct type', {'x': int, 'name': str}),
+             ('Dict[str, int]', t.Dict[str, int]), ('Optional[dataclass]', t.Optional[P])]
+    contents = [{}, {'p': 1}, {'p': 1, 'q': 2}, {'kind': 'zzz'}, {'x': 1}, {'t': 'a'}, {'c': {}, 'other': 1}, {'a': {}}, {'p': 1, 'q': 2, 'r': 3}]
+    factories = [dict, list, int, lambda: 'a']
+    for label, ty in types:
+        for c in contents:
+            for fac in factories:
+                n += 1
+                d = collections.defaultdict(fac, c)
+                before = dict(d)
+                for call in (lambda: pane.from_data(d, ty), lambda: pane.convert(d, ty) if False else None):
+                    try:
+                        with warnings.catch_warnings():
+                            warnings.simplefilter('ignore')
+                            call()
+                    except Exception:
+                        pass
+                if dict(d) != before:
+                    out.violation('C09:defaultdict-input-grew', f'from_data(defaultdict({getattr(fac, "__name__", "factory")}, {before!r}), {label}) left the input as {dict(d)!r}: '
+                                  'a key was read by indexing without testing that it is present', {'type': label, 'input': repr(before)})
+    return n
+
+
 def run(ctx, out):
     out.rule = ('types x values, both verdicts; the value is deep-copied into instrumented dict/list subclasses (still dict/list for every '
                 'isinstance gate) that record every mutating method call; from_data, collect_errors, convert, into_data (typed values), '
                 'dataclass constructors (*args / **kwargs). Any mutator call on an input object, or a difference of the deep structural '
                 'snapshot, is a violation. Tagged-union mappings (tag stripped), aliases, duplicates and extra keys are emphasised. '
                 'Non-trivial = non-leaf type.')
+    out.evaluations += defaultdict_inputs(out)
     convprop.run(ctx, out, PROP, monitor, cfg={'weights': {'tagged': 4.0, 'class': 3.0, 'dict': 2.0, 'struct': 1.5}})
 
 
